@@ -202,3 +202,27 @@ func TestKnownC11(t *testing.T) {
 	}
 	fmt.Printf("NOTE: open finding %s did not reproduce (%s)\n", f.Key, w.LastTx.Res.Log)
 }
+
+// TestKnownC14UTF8 : legacy amino JSON renders every invalid UTF-8 sequence as U+FFFD, so two
+// create-topic messages whose descriptions differ only in such a byte share their sign bytes.
+func TestKnownC14UTF8(t *testing.T) {
+	f, ok := findingByKey("C14-amino-invalid-utf8")
+	if !ok {
+		t.Skip("not an open finding")
+	}
+	e := newC14Env()
+	owner := simnet.DefaultAccounts(1)[0].Bech
+	a := &aoltypes.MsgCreateTopicRequest{TopicName: "a", Description: "a\xffb", OwnerAddress: owner}
+	b := &aoltypes.MsgCreateTopicRequest{TopicName: "a", Description: "a\xfeb", OwnerAddress: owner}
+	if a.ValidateBasic() != nil || b.ValidateBasic() != nil {
+		fmt.Printf("NOTE: open finding %s did not reproduce: stateless validation refuses the descriptions\n", f.Key)
+		return
+	}
+	sa, erra := e.signBytes(e.txc, signing.SignMode_SIGN_MODE_LEGACY_AMINO_JSON, a)
+	sb, errb := e.signBytes(e.txc, signing.SignMode_SIGN_MODE_LEGACY_AMINO_JSON, b)
+	if erra == nil && errb == nil && string(sa) == string(sb) {
+		knownLine(f)
+		return
+	}
+	fmt.Printf("NOTE: open finding %s did not reproduce\n", f.Key)
+}
